@@ -296,3 +296,34 @@ theorem VFile.lastBefore_eq {f : VFile} (h : f.WF) (hws : f.ws = false) (s : Nat
   · exact bsearch_eq_spec _ _ h.sorted
 
 end FsDb
+
+namespace FsDb
+
+theorem collect_snd_sublist (l : List Ver) (hz : Nat) : List.Sublist (collect l hz).2 l := by
+  have happ := collect_append l hz
+  conv => rhs; rw [← happ]
+  exact List.sublist_append_right _ _
+
+theorem collect_fst_sublist (l : List Ver) (hz : Nat) : List.Sublist (collect l hz).1 l := by
+  have happ := collect_append l hz
+  conv => rhs; rw [← happ]
+  exact List.sublist_append_left _ _
+
+/-- if something was collected, the head of what remains is not newer than the horizon -/
+theorem collect_head_le (l : List Ver) (hz : Nat) (h : (collect l hz).1 ≠ []) :
+    ∃ hd, (collect l hz).2.head? = some hd ∧ hd.seq ≤ hz := by
+  fun_induction collect l hz with
+  | case1 a b rest hz hc r ih =>
+    by_cases hr : r.1 = []
+    · have happ := collect_append (b :: rest) hz
+      have h2 : (collect (b :: rest) hz).2 = b :: rest := by
+        have : (collect (b :: rest) hz).1 = [] := hr
+        rw [this] at happ; simpa using happ
+      refine ⟨b, ?_, by omega⟩
+      show (collect (b :: rest) hz).2.head? = some b
+      rw [h2]; rfl
+    · exact ih hr
+  | case2 a b rest hz hc => exact absurd rfl h
+  | case3 l hz hne => exact absurd rfl h
+
+end FsDb
